@@ -531,6 +531,7 @@ def run(run, tier):
     from . import esirx
     esirx.part(run, tier, 'C10', props, per)
     C.extra_props(run, 'C10', props, ['C10esis'])
+    from . import genx; genx.part(run, tier, 'C10', props, per)
     stats['scripted_simulators'] = per
     # ---- verdicts
     for key, (size, what, c) in spec_bad.items():
